@@ -529,10 +529,17 @@ func (n *node) oracle() (string, string) {
 			return "listed-group-not-by-id", fmt.Sprintf("GetGroupById(%s)=%s", hx.Hex(g.Id), gstr(b))
 		}
 	}
-	for i := cnt; i <= cnt+3; i++ {
+	for k := uint64(0); k <= 3; k++ {
+		i := cnt + k
+		if i < cnt {
+			break // uint64 wrap (count underflowed)
+		}
 		if h := gc.GetGroupByHeight(i); h != nil {
 			return "height-slot-above-count", fmt.Sprintf("Count()=%d but GetGroupByHeight(%d)=%s", cnt, i, gstr(h))
 		}
+	}
+	if cnt > 1<<32 {
+		return "count-ne-length", fmt.Sprintf("Count()=%d", cnt)
 	}
 	for _, g := range core.VerifGroupChainSyncByHeight(0, int(cnt)+4) {
 		if g == nil {
